@@ -713,6 +713,87 @@ func c09Crafted(rng *core.RNG) []c09Blob {
 		prof, _ := imggen.ICCSpec{Header: imggen.MinimalHeader(true), Tags: []imggen.ICCTag{{Sig: "desc", Data: tag}}}.Build()
 		add("icc", "ICC", prof, fmt.Sprintf("mluc-many-distinct-records: %d records with distinct locales (%d bytes)", recs, len(prof)))
 	}
+	// mluc with many records that all cover one shared run of bytes of one value (zero code units,
+	// spaces, byte order marks): work per record must not grow with what the record's string holds
+	for _, sh := range []struct {
+		recs, run int
+		unit      [2]byte
+	}{{20000, 200 << 10, [2]byte{0, 0}}, {100000, 1200 << 10, [2]byte{0, 0}}, {100000, 1200 << 10, [2]byte{0, ' '}}, {60000, 600 << 10, [2]byte{0xFE, 0xFF}}, {60000, 600 << 10, [2]byte{0, 'A'}}} {
+		n := 16 + 12*sh.recs + sh.run
+		tag := make([]byte, n)
+		copy(tag, "mluc")
+		binary.BigEndian.PutUint32(tag[8:], uint32(sh.recs))
+		binary.BigEndian.PutUint32(tag[12:], 12)
+		for k := 0; k < sh.recs; k++ {
+			o := 16 + 12*k
+			tag[o], tag[o+1] = byte('a'+k%26), byte('a'+(k/26)%26)
+			tag[o+2], tag[o+3] = byte('A'+(k/676)%26), byte('A'+(k/17576)%26)
+			binary.BigEndian.PutUint32(tag[o+4:], uint32(sh.run))
+			binary.BigEndian.PutUint32(tag[o+8:], uint32(16+12*sh.recs))
+		}
+		for i := 16 + 12*sh.recs; i+1 < n; i += 2 {
+			tag[i], tag[i+1] = sh.unit[0], sh.unit[1]
+		}
+		prof, _ := imggen.ICCSpec{Header: imggen.MinimalHeader(true), Tags: []imggen.ICCTag{{Sig: "desc", Data: tag}}}.Build()
+		add("icc", "ICC", prof, fmt.Sprintf("mluc-shared-run: %d records all covering one run of %d bytes of %#02x%02x (%d input bytes)", sh.recs, sh.run, sh.unit[0], sh.unit[1], len(prof)))
+	}
+	// mluc records of length 0, 1, 2 and 3 whose offsets point at another record's byte order mark,
+	// at the last bytes of the tag, and just past them
+	for _, bom := range [][]byte{{0xFE, 0xFF}, {0xFF, 0xFE}, {0xEF, 0xBB, 0xBF}} {
+		for _, l := range []uint32{0, 1, 2, 3} {
+			for _, where := range []string{"at-mark", "at-last-bytes", "mark-last"} {
+				text := append(append([]byte{}, bom...), 0, 'm', 0, 'a', 0, 'r', 0, 'k')
+				if where == "mark-last" {
+					text = append([]byte{0, 'm', 0, 'a'}, bom...)
+				}
+				nrec := 2
+				n := 16 + 12*nrec + len(text)
+				tag := make([]byte, n)
+				copy(tag, "mluc")
+				binary.BigEndian.PutUint32(tag[8:], uint32(nrec))
+				binary.BigEndian.PutUint32(tag[12:], 12)
+				copy(tag[16:], "deDE")
+				binary.BigEndian.PutUint32(tag[20:], uint32(len(text)))
+				binary.BigEndian.PutUint32(tag[24:], uint32(16+12*nrec))
+				copy(tag[28:], "enUS")
+				binary.BigEndian.PutUint32(tag[32:], l)
+				off := uint32(16 + 12*nrec)
+				switch where {
+				case "at-last-bytes":
+					off = uint32(n) - l
+				case "mark-last":
+					off = uint32(n - len(bom))
+				}
+				binary.BigEndian.PutUint32(tag[36:], off)
+				copy(tag[16+12*nrec:], text)
+				for _, first := range []bool{false, true} {
+					t2 := append([]byte{}, tag...)
+					if first { // the short record first, the full one second
+						copy(t2[16:28], tag[28:40])
+						copy(t2[28:40], tag[16:28])
+					}
+					prof, _ := imggen.ICCSpec{Header: imggen.MinimalHeader(true), Tags: []imggen.ICCTag{{Sig: "desc", Data: t2}}}.Build()
+					add("icc", "ICC", prof, fmt.Sprintf("mluc-short-record-at-mark: %d-byte record %s (mark % x, short record first: %v)", l, where, bom, first))
+				}
+			}
+		}
+	}
+	// v2 descriptions whose text is really there and really long (ASCII, Latin-1 bytes, NULs)
+	for _, n := range []int{100 << 10, 384 << 10, 2 << 20} {
+		for _, fill := range []byte{'A', 0xE9, 0} {
+			if n > 1<<20 && fill != 'A' {
+				continue
+			}
+			el := imggen.TextDescription(string(bytes.Repeat([]byte{fill}, n)))
+			prof, _ := imggen.ICCSpec{Header: imggen.MinimalHeader(false), Tags: []imggen.ICCTag{{Sig: "desc", Data: el}}}.Build()
+			add("icc", "ICC", prof, fmt.Sprintf("long-description: v2 description of %d bytes of %#02x (%d input bytes)", n, fill, len(prof)))
+			if n == 384<<10 && fill == 'A' {
+				sp := imggen.PNGSpec{W: 5, H: 7, Depth: 8, ColorType: 2, ICC: &imggen.PNGICC{Name: "l", Profile: prof, Level: 1}, IDAT: []byte{1, 2}}
+				b, _ := sp.Build()
+				add("load", "PNG", b, fmt.Sprintf("long-description: v2 description of %d bytes, deflated into a %d-byte PNG", n, len(b)))
+			}
+		}
+	}
 	// an iCCP stream that is not zlib at all (bad header), short and long: whatever machinery
 	// feeds the decompressor must not wait for a reader that has given up
 	for _, n := range []int{40, 5000, 70000, 1 << 20} {
